@@ -55,6 +55,14 @@ def _names_used(node: ast.AST, name: str) -> list[ast.Name]:
             binds = {a.arg for a in n.args.args}
             visit(n.body, shadow or name in binds)
             return
+        if isinstance(n, (ast.For, ast.AsyncFor)) and any(isinstance(x, ast.Name) and x.id == name for x in ast.walk(n.target)):
+            # another loop that binds the name itself: its body reads ITS element, not what the earlier loop left behind
+            visit(n.iter, shadow)
+            for st in n.body:
+                visit(st, True)
+            for st in n.orelse:
+                visit(st, shadow)
+            return
         if isinstance(n, ast.Name) and n.id == name and isinstance(n.ctx, ast.Load) and not shadow:
             out.append(n)
         for c in ast.iter_child_nodes(n):
